@@ -23,6 +23,8 @@ var byteContexts = []struct{ name, prefix string }{
 	{"inside-comment", "S1F1 // "},
 	{"inside-number-item", "S1F1 <U1 1 "},
 	{"after-message-end", "S1F1 .\n"},
+	{"after-top-level-item", "S1F1 <A \"x\"> "},
+	{"after-nested-item", "S1F1 <L <U1 1> "},
 }
 
 var byteSuffixes = []string{"", ">\n.", "\n.\n"}
@@ -101,6 +103,23 @@ func init() {
 						c.Case(0, true, out)
 					}})
 			}
+			// every lexer state x all triples over a 32-fragment alphabet (digits, signs, multi-byte characters, brackets...)
+			frs := []string{"5", "12", "+", "-", ".", "..", "e", "E", "x", "_", "0x", "0b", "é", "語", "\xff", "\xc3", " ", "\n", "\t", "<", ">", "[", "]", "\"", "/", "//", "T", "L", "A", "W", "S1F1", "1.5"}
+			nf := len(frs)
+			sp = append(sp, h.Space{Name: "lexer-state-x-fragment-triples", Count: uint64(len(byteContexts) * nf * nf * nf),
+				Describe: func(i uint64) interface{} {
+					d := unrank(i, len(byteContexts), nf, nf, nf)
+					return fmt.Sprintf("%s: %q", byteContexts[d[0]].name, byteContexts[d[0]].prefix+frs[d[1]]+frs[d[2]]+frs[d[3]])
+				},
+				Run: func(c *h.Ctx, i uint64) {
+					d := unrank(i, len(byteContexts), nf, nf, nf)
+					text := byteContexts[d[0]].prefix + frs[d[1]] + frs[d[2]] + frs[d[3]] + byteSuffixes[int(i)%len(byteSuffixes)]
+					ms, out := totalParse(c, "fragments:"+byteContexts[d[0]].name, text)
+					for _, m := range ms {
+						fixedPoint(c, "accepted", "sml.Parse("+strconv.Quote(text)+")", m)
+					}
+					c.Case(0, true, out)
+				}})
 			// magnitudes
 			sp = append(sp, h.Space{Name: "magnitudes-x-numeric-slots", Count: uint64(len(numberSlots) * len(magnitudes) * len(magnitudes)),
 				Describe: func(i uint64) interface{} {
